@@ -45,19 +45,23 @@ CLAIM = dict(
               "differential of the model against meta.* and the generated code + recording-context/loader renders",
     text="Theorems (Props/C32.lean): for every template of the fragment (output, if/elif/else, for with filter/else/recursive, "
          "set, set-block, with, macro, call, filter, block, scoped block, include, import, from-import, extends, autoescape "
-         "scope) and every oracle deciding branches, iteration counts, recursion and how often macros/blocks are invoked, "
-         "every name the run fetches from the context is a resolve site of the generated code (lookups_subset_sites) and hence "
-         "reported by find_undeclared_variables or an environment global (lookups_subset_undeclared); the root frame's names "
-         "are fetched by every run (root_lookups_always); every name the analysis lets the generated code read has a slot "
-         "(loads_have_refs_root: symbols.ref never fails for a name visited in the root frame); for every "
-         "Extends/Include/Import/FromImport node reachable in a run, every constant template name it can hand to the loader "
-         "is yielded by find_referenced_templates, and if it can hand over anything else None is yielded "
-         "(referenced_templates_sound, site_sound). Tie: model == meta.find_undeclared_variables and == "
+         "scope) and every oracle deciding branches, iteration counts, loop recursion and how often macros/call blocks/block "
+         "functions are invoked, every name the run fetches from the context is a resolve site of the generated module "
+         "(lookups_subset_sites) and hence reported by find_undeclared_variables or an environment global "
+         "(lookups_subset_undeclared); the root frame's names are fetched by every run (root_lookups_always); every name the "
+         "code generator visits in a frame has a slot assigned by the analysis of that frame chain, so a load never needs an "
+         "ad-hoc context read and Symbols.ref cannot fail, for all templates whose set-block filters mention no name "
+         "(refs_never_fail_root, refs_never_fail_block; the excluded case is a real compiler AssertionError); every template "
+         "name an executed Extends/Include/Import/FromImport site can hand to the loader is yielded by "
+         "find_referenced_templates unless None is yielded (site_sound, referenced_templates_sound), and by name when the "
+         "expression has no dynamic part (site_sound_const). Tie: model == meta.find_undeclared_variables and == "
          "list(meta.find_referenced_templates) on the real parse trees of generated templates (5 ordinary names, special names "
          "loop/self/super/caller/varargs/kwargs, globals; shadowing, conditional assignment, read-before-write, tuple "
          "targets, ns.x assignment, macro defaults, scoped blocks, imports); resolve(...) literals of compile(raw=True) == "
-         "model resolve sites in sync and async mode; renders with a recording Context/loader: every context lookup is "
-         "reported for the template whose code performed it, every load request is reported for the requesting template.",
+         "model resolve sites in sync and async mode; Symbols.ref failures == model prediction; get_template/select_template "
+         "literals of the generated code are yielded; renders with a recording Context/join_path/loader (sync+async, several "
+         "data assignments, extends/include/import chains): every context lookup is reported for the template whose code "
+         "performed it, the root prologue names are always fetched, every load request is reported for the requesting template.",
     note="Trusted: Lean kernel; hand model Model/Scope.lean (tied by exact correspondence); the runtime model reads the "
          "context only in frame prologues (compiler.enter_frame) - other runtime paths are covered end-to-end only; extensions "
          "and pass_context callables are out of scope.",
@@ -192,7 +196,7 @@ def parse_reply(rep):
     for part in rep[1]:
         d[str(part[0])] = part[1:]
     refs = [None if (r == "none" and isinstance(r, Atom)) else r[1] for r in d["referenced"]]
-    return {"sites": sorted(d["sites"]), "undeclared": sorted(d["undeclared"]), "root": sorted(d["root"]), "referenced": refs,
+    return {"refok": bool(d["refok"][0]), "sites": sorted(d["sites"]), "undeclared": sorted(d["undeclared"]), "root": sorted(d["root"]), "referenced": refs,
             "runs": [sorted(x) for x in d["runs"]]}
 
 
@@ -276,7 +280,7 @@ class Gen:
         if k <= 2:
             return n
         if k == 3:
-            return r.choice(["1", "'s'", "[1, 2]", "true", "none", "[[1, [2]], [3]]"])
+            return r.choice(["'s'", "[1, 2]", "[[1, [2]], [3]]", "'xy'"] if self.e2e else ["1", "'s'", "[1, 2]", "true", "none", "[[1, [2]], [3]]"])
         if k == 4:
             return f"{n}.{r.choice(['x', 'y', 'index'])}"
         if k == 5:
@@ -292,7 +296,7 @@ class Gen:
         if k == 10:
             return f"{n}({self.expr(d - 1)}, k={self.expr(d - 1)})"
         if k == 11 and self.e2e and r.random() < 0.8:
-            return r.choice(["range(2)", "namespace(x=1)", "loop.index", "m1(%s)" % self.name(0), "m2()"])
+            return r.choice(["range(2)", "namespace(x=1)", "m1(%s)" % self.name(0), "m2()"])
         if k == 11:
             return r.choice(["loop.index", "loop.first", "loop(" + self.name(0) + ")", "self.b0()", "super()", "caller()",
                              "caller(" + self.name(0) + ")", "varargs|length", "kwargs|length", "range(2)", "namespace(x=1)"])
@@ -331,6 +335,8 @@ class Gen:
     def stmt(self, d, top=False):
         r = self.rng
         k = r.randrange(26) if d > 0 else r.randrange(7)
+        if self.e2e and not self.tnames and k in (21, 22, 23, 25):
+            k = 0        # a leaf template of the e2e sets references nothing
         f = self.feat.add
         if k <= 2:
             return "{{ %s }}" % self.expr()
@@ -342,9 +348,12 @@ class Gen:
             if kk == 3:
                 f("set-tuple")
                 return "{%% set %s, %s = %s, %s %%}" % (self.store_name(), self.store_name(), self.expr(1), self.expr(1))
+            if kk >= 4 and self.e2e:     # imported / context-less templates have no `ns`: guard so the render goes on
+                return "{%% if ns is defined and ns.x is defined %%}{%% set %sns.x = %s2 %%}{%% endif %%}" % (
+                    (self.store_name() + ", ", self.expr(1) + ", ") if kk == 5 else ("", ""))
             if kk == 4:
                 f("set-ns")
-                return "{%% set %s.%s = %s %%}" % ("ns" if self.e2e and r.random() < 0.9 else r.choice(["ns", self.name(0)]),
+                return "{%% set %s.%s = %s %%}" % ("ns" if self.e2e and r.random() < 0.97 else r.choice(["ns", self.name(0)]),
                                                r.choice(["x", "y"]), self.expr())
             f("set-ns-tuple")
             return "{%% set %s, ns.x = %s, 2 %%}" % (self.store_name(), self.expr(1))
@@ -363,7 +372,10 @@ class Gen:
             return s + "{% endif %}"
         if k in (10, 11, 12):
             f("for")
-            s = "{%% for %s in %s" % (self.target(), self.expr(1))
+            it = self.expr(1)
+            if self.e2e and r.random() < 0.85:      # something iterable, so that loop bodies are reached
+                it = r.choice([self.name(0), self.name(0) + ".x", "[1, 2]", "range(2)", "[[1, [2]], [3]]", self.name(0) + "(1)"])
+            s = "{%% for %s in %s" % (self.target(), it)
             if r.random() < 0.25:
                 f("for-filter")
                 s += " if " + self.expr(1)
@@ -378,6 +390,8 @@ class Gen:
         if k == 13:
             f("set-block")
             flt = r.choice(["", "", " | upper", " | default('z')"])
+            if not self.e2e and r.random() < 0.06:      # compiler.py:1625 visits the filter in a frame that never analysed it
+                flt = " | replace(%s, 'q')" % self.name(0)
             return "{%% set %s%s %%}%s{%% endset %%}" % (self.store_name(), flt, self.body(d - 1))
         if k == 14:
             f("with")
@@ -455,18 +469,19 @@ def analyse_real(jinja2, env, src):
     except jinja2.TemplateSyntaxError as e:
         return ("reject", "syntax:" + str(e)[:40])
     try:
-        und = meta.find_undeclared_variables(tree)
-        refs = list(meta.find_referenced_templates(tree))
-    except (jinja2.TemplateAssertionError, AssertionError) as e:
-        return ("reject", type(e).__name__ + ":" + str(e)[:30])
-    try:
-        code = env.compile(src, name="tpl", raw=True)
-    except (jinja2.TemplateSyntaxError, AssertionError) as e:
-        return ("reject", "compile:" + type(e).__name__)
-    try:
         req = request(nodes, env, env.parse(src))
     except OutOfModel as e:
         return ("oom", str(e))
+    try:
+        und = meta.find_undeclared_variables(tree)
+        refs = list(meta.find_referenced_templates(tree))
+        code = env.compile(src, name="tpl", raw=True)
+    except jinja2.TemplateSyntaxError as e:        # TemplateAssertionError: block defined twice, assignment to loop, ...
+        return ("reject", type(e).__name__ + ":" + str(e)[:30])
+    except AssertionError as e:
+        if "unknown to the frame" in str(e):        # Symbols.ref failed: the model predicts exactly when (refOkTemplate)
+            return {"src": src, "req": req, "ref_failed": str(e)}
+        return ("reject", "AssertionError:" + str(e)[:30])
     sites, loads = code_sites(code)
     return {"src": src, "undeclared": sorted(und), "referenced": refs, "sites": sorted(sites), "loads": loads, "req": req}
 
@@ -551,6 +566,10 @@ def run(ctx, res):
             key = why.split(":")[0] if kind == "reject" else why
             stats["rejected" if kind == "reject" else "oom"][key] = stats["rejected" if kind == "reject" else "oom"].get(key, 0) + 1
             continue
+        if "ref_failed" in r:
+            reals.append(r)
+            reqs.append(r["req"])
+            continue
         # async code generation must have the same sites
         try:
             asites, _ = code_sites(aenv.compile(src, name="tpl", raw=True))
@@ -568,8 +587,15 @@ def run(ctx, res):
         if model is None:
             res.violate("C32:model:bad-reply", f"driver reply {rep!r} for {r['src']!r}", {"src": r["src"]}, no_input=True)
             continue
-        b = len(r["src"]) // 50
-        stats["sizes"][b * 50] = stats["sizes"].get(b * 50, 0) + 1
+        if ("ref_failed" in r) == model["refok"]:
+            res.violate("C32:refok:model-diff",
+                        f"compiling {r['src']!r}: " + (f"Symbols.ref failed ({r['ref_failed']})" if "ref_failed" in r else "succeeded")
+                        + f", model refOkTemplate = {model['refok']}", {"src": r["src"]}, no_input=True)
+        if "ref_failed" in r:
+            stats["ref_failed"] = stats.get("ref_failed", 0) + 1
+            continue
+        b = len(r["src"]) // 250
+        stats["sizes"][b * 250] = stats["sizes"].get(b * 250, 0) + 1
         ok = compare_static(res, r["src"], r, model, env.globals, "static", stats)
         if r["async_sites"] != r["sites"]:
             ok = False
@@ -596,6 +622,7 @@ def run(ctx, res):
         "static_templates": evaluations, "static_agree": agree, "runs_differ_between_oracles": shadow,
         "rejected_by_compiler": stats["rejected"], "out_of_model": stats["oom"], "feature_counts": stats["features"],
         "source_length_histogram": dict(sorted(stats["sizes"].items())), "load_sites_checked": stats.get("load_sites", 0),
+        "symbols_ref_failures_predicted_by_model": stats.get("ref_failed", 0),
         "e2e": e2e,
     })
 
@@ -632,6 +659,9 @@ FIXED = [
     "{% for a in b %}{% for c in d %}{{ loop.x }}{% endfor %}{% set e = loop %}{% endfor %}",
     "{{ range(3) }}{{ dict(a=b) }}{{ namespace }}{% set range = 1 %}{{ range }}",
     "{% if a %}{% extends 'x' %}{% endif %}{{ b }}",
+    "{% set x | replace(a, 'b') %}hi{% endset %}{{ x }}",
+    "{{ a }}{% set x | replace(a, 'b') %}hi{% endset %}{{ x }}",
+    "{% block k %}{% set x | default(zz) %}{% endset %}{% endblock %}",
 ]
 
 
@@ -727,6 +757,32 @@ class Any:
     __add__ = __radd__ = __sub__ = __rsub__ = __mul__ = __rmul__ = _same
 
 
+def make_ns(jinja2):
+    from jinja2.utils import Namespace
+
+    class NSAny(Namespace):
+        """a real Namespace (so `{% set ns.x = … %}` works) that also survives iteration / calls / arithmetic"""
+
+        def __iter__(self):
+            return iter([])
+
+        def __call__(self, *a, **k):
+            return self
+
+        def __len__(self):
+            return 0
+
+        def __contains__(self, x):
+            return False
+
+        def _same(self, *a):
+            return self
+
+        __add__ = __radd__ = __getitem__ = _same
+
+    return NSAny
+
+
 def make_undefined(jinja2):
     class Soft(jinja2.ChainableUndefined):
         def _self(self, *a, **k):
@@ -742,24 +798,26 @@ def make_undefined(jinja2):
 
 def make_data(jinja2, rng):
     from jinja2.utils import Namespace
-    anyv = lambda: Any(rng.choice([1, 2, 2, 3]), rng.random() < 0.6, rng.getrandbits(16))  # noqa
-    vals = [anyv] * 26 + [lambda: 0, lambda: 1, lambda: "s", lambda: [1, 2], lambda: [], lambda: [[1, [2]], [3]], lambda: {"x": 1, "k": 2},
+    anyv = lambda: Any(rng.choice([2, 3, 3, 4]), rng.random() < 0.6, rng.getrandbits(16))  # noqa
+    vals = [anyv] * 100 + [lambda: 0, lambda: 1, lambda: "s", lambda: [1, 2], lambda: [], lambda: [[1, [2]], [3]], lambda: {"x": 1, "k": 2},
             lambda: NS(), lambda: Namespace(x=1), lambda: (lambda *a, **k: "f"), lambda: [(1, (2, 3)), (4, (5, 6))], lambda: None,
             lambda: True]
     data = {}
     for n in ORD + ["tn"] + SPECIAL:
-        p = 0.6 if n in ORD else 0.15
+        p = 0.75 if n in ORD else 0.15
         if rng.random() < p:
             data[n] = rng.choice(vals)()
     if "tn" in data or rng.random() < 0.7:
-        data["tn"] = rng.choice(TNAMES + ["nope"])
-    if rng.random() < 0.85:
-        data["ns"] = Namespace(x=0, y=anyv())
+        data["tn"] = rng.choice(["t2", "t2", "t2", "nope"])      # t2 is a leaf: dynamic references cannot close a cycle
+    if rng.random() < 0.97:
+        data["ns"] = make_ns(jinja2)(x=0, y=anyv())
     return data
 
 
 def run_e2e(ctx, res, jinja2, stats):
+    import warnings
     from jinja2 import meta
+    warnings.simplefilter("ignore", RuntimeWarning)     # repr of an AsyncLoopContext leaves a never-awaited coroutine
     rng = ctx.rng("e2e")
     nsets = ctx.pick(80, 1200)
     ndata = ctx.pick(3, 5)
@@ -767,8 +825,11 @@ def run_e2e(ctx, res, jinja2, stats):
     distinct = set()
     lookups_total = requests_total = 0
     outcome = {}
+    messages = {}
     unattributed = 0
     lower_checked = 0
+    from jinja2 import nodes
+    all_sets = []
     for si in range(nsets):
         srcs = {}
         tries = 0
@@ -779,6 +840,8 @@ def run_e2e(ctx, res, jinja2, stats):
             src = g.template(rng.choice([1, 2, 2, 3] if nm == "main" else [1, 1, 2]))
             if nm == "t2":  # the import target: make sure it exports macros
                 src = "{% macro m1(a) %}{{ a }}{{ " + rng.choice(ORD) + " }}{% endmacro %}{% macro m2() %}{{ caller() }}{% endmacro %}" + src
+            if nm == "main" and rng.random() < 0.7:
+                src = "{% from 't2' import m1, m2 %}" + src
             if nm == "base":
                 src = "{% block b0 %}{{ " + rng.choice(ORD) + " }}{% endblock %}" + src.replace("block b0", "block bz")
             try:
@@ -788,12 +851,20 @@ def run_e2e(ctx, res, jinja2, stats):
             except Exception:  # noqa
                 continue
             srcs[nm] = src
-        if len(srcs) < 5:
-            continue
+        if len(srcs) == 5:
+            all_sets.append((si, srcs))
+    # the model's view of every template of every set (one driver batch)
+    probe = jinja2.Environment()
+    flat = [(si, nm, src) for si, srcs in all_sets for nm, src in srcs.items()]
+    models = {}
+    replies = core.driver_batch([request(nodes, probe, probe.parse(src)) for _si, _nm, src in flat])
+    for (si, nm, _src), rep in zip(flat, replies):
+        models[(si, nm)] = parse_reply(rep)
+    for si, srcs in all_sets:
         for is_async in (False, True):
             log = {"lookups": [], "sources": [], "requests": []}
             RecContext, RecLoader, RecEnv = make_recording(jinja2, log)
-            env = RecEnv(loader=RecLoader(srcs), enable_async=is_async, cache_size=0,
+            env = RecEnv(loader=RecLoader(srcs), enable_async=is_async,
                          undefined=make_undefined(jinja2) if si % 2 else jinja2.Undefined)
             env.context_class = RecContext
             globs = set(env.globals)
@@ -819,6 +890,8 @@ def run_e2e(ctx, res, jinja2, stats):
                     oc = "RecursionError"
                 except Exception as e:  # noqa
                     oc = type(e).__name__
+                    msg = oc + ":" + str(e)[:48]
+                    messages[msg] = messages.get(msg, 0) + 1
                 outcome[oc] = outcome.get(oc, 0) + 1
                 renders += 1
                 lookups_total += len(log["lookups"])
@@ -836,10 +909,26 @@ def run_e2e(ctx, res, jinja2, stats):
                                     f"render ({'async' if is_async else 'sync'}) fetched {key!r} from the context in code of template "
                                     f"{who!r} (context of {ctxname!r}); find_undeclared_variables reports {sorted(reported.get(who, union))}",
                                     dict(replay, lookup=[who, ctxname, key]))
-                # lower bound that ties the runtime model: a template whose root function ran fetched its root-frame names
+                # ties the runtime model: (lower bound, theorem root_lookups_always) the root function of "main" always runs its
+                # prologue, so the model's root-frame names must have been fetched; (upper bound) what the code of a template
+                # fetched are resolve sites of the model
                 looked = {}
                 for who, _c, key in log["lookups"]:
                     looked.setdefault(who, set()).add(key)
+                m = models.get((si, "main"))
+                if m is not None and oc != "RecursionError":
+                    lower_checked += 1
+                    notseen = sorted(set(m["root"]) - looked.get("main", set()))
+                    if notseen:
+                        res.violate("C32:e2e:root-prologue:model-diff",
+                                    f"model says the root frame of 'main' fetches {m['root']} on entry; the render did not fetch {notseen}",
+                                    dict(replay, model_root=m["root"]), no_input=True)
+                for who, keys in looked.items():
+                    m = models.get((si, who))
+                    if m is not None and not keys <= set(m["sites"]):
+                        res.violate("C32:e2e:sites:model-diff",
+                                    f"code of {who!r} fetched {sorted(keys - set(m['sites']))} which are not resolve sites of the model "
+                                    f"{m['sites']}", dict(replay, template=who), no_input=True)
                 for parent, name in set(log["requests"]):
                     refs = referenced.get(parent)
                     if refs is None or name is None:      # a non-string is not a template name
@@ -853,9 +942,10 @@ def run_e2e(ctx, res, jinja2, stats):
                     if s is not None and s not in requested:
                         res.violate("C32:e2e:load-unattributed", f"loader was asked for {s!r} without a join_path request",
                                     dict(replay, source=s), no_input=True)
-                lower_checked += 1
     return {"template_sets": nsets, "renders": renders, "distinct": len(distinct), "context_lookups": lookups_total,
-            "load_requests": requests_total, "outcomes": outcome, "unattributed_lookups": unattributed}
+            "load_requests": requests_total, "outcomes": outcome, "unattributed_lookups": unattributed,
+            "root_prologue_lower_bound_checked": lower_checked,
+            "top_render_errors": dict(sorted(messages.items(), key=lambda kv: -kv[1])[:8])}
 
 
 def replay(ctx, case):
